@@ -284,6 +284,27 @@ def run(repo, rep, tier):
         g = cfgmod.build(f)
         guards = [n for n in f.body if isinstance(n, ast.If) and any(isinstance(x, ast.Raise) and "IndexError" in U(x) for x in n.body)]
         rep.info("C10.info", f"{fn}: {len(guards)} leading `p < 0 -> raise IndexError` guard(s): {[U(gd.test) for gd in guards]}")
+    # the size accessors of the model accept every size the addressing layer can ask for: a table may be exactly
+    # MAX_ROW_COUNT rows by MAX_COL_COUNT columns (the last valid index is MAX - 1, so the count MAX must be storable)
+    from ..funsum import Summarizer as _Summ, decide as _decide
+    for acc, limit in (("number_of_rows", "MAX_ROW_COUNT"), ("number_of_columns", "MAX_COL_COUNT")):
+        fa_ = repo.func("model.py", f"_NumbersModel.{acc}")
+        val_ = fa_.args.args[2].arg
+        lim_ = repo.consts.get(limit)
+        bad_ = []
+        if isinstance(lim_, int):
+            paths_ = _Summ(consts=repo.consts).summarize(fa_)
+            for size_ in (1, lim_ - 1, lim_):
+                sc_ = {val_: size_, f"{val_} is None": False, f"{val_} is not None": True, limit: lim_}
+                try:
+                    for _fx, kind_, text_, _p in _decide(paths_, sc_, limit=4):
+                        if kind_ == "raise":
+                            bad_.append(f"a size of {size_} is refused (`{(text_ or '')[:50]}`)")
+                except AnalysisError as e_:
+                    raise AnalysisError(f"{acc}: {e_}") from e_
+        rep.ob("C11.R2", fa_, f"{acc}: every size up to {limit} can be stored", not bad_,
+               "; ".join(bad_[:2]) + (f": writing to the last valid index ({limit} - 1) on a smaller table fails half-way, leaving the grid and the declared size apart" if bad_ else ""),
+               key=f"C11.R2@{acc}:limit")
     rep.floor("C11.R1", 14)
     rep.floor("C11.R2", 10)
     rep.floor("C11.R3", 6)
@@ -557,6 +578,10 @@ def check_bounds(rep, ga, sub, r_txt, c_txt, where, nrows, ncols):
 
 _ITER_OLD = "        min_row = 0 if min_row is None else min_row\n        max_row = self.num_rows - 1 if max_row is None else max_row\n"
 VARIANTS = [
+    M("model-size-setter-refuses-the-limit", "model.py", "        if num_rows is not None:\n            self.objects[table_id].number_of_rows = num_rows",
+      "        if num_rows is not None:\n            if num_rows >= 1000000:\n                raise IndexError(\"too many rows\")\n            self.objects[table_id].number_of_rows = num_rows", "C11.R2"),
+    T("model-size-setter-refuses-beyond-the-limit", "model.py", "        if num_rows is not None:\n            self.objects[table_id].number_of_rows = num_rows",
+      "        if num_rows is not None:\n            if num_rows > 1000000:\n                raise IndexError(\"too many rows\")\n            self.objects[table_id].number_of_rows = num_rows"),
     M("a1-row-digits-bounded-short", "xrefs.py", 'range_parts = re.compile(r"(\\$?)([A-Z]{1,3})(\\$?)(\\d+)")', 'range_parts = re.compile(r"(\\$?)([A-Z]{1,3})(\\$?)(\\d{1,6})")', "C11.R1"),
     M("a1-col-letters-two", "xrefs.py", 'range_parts = re.compile(r"(\\$?)([A-Z]{1,3})(\\$?)(\\d+)")', 'range_parts = re.compile(r"(\\$?)([A-Z]{1,2})(\\$?)(\\d+)")', "C11.R1"),
     T("a1-row-digits-bounded-enough", "xrefs.py", 'range_parts = re.compile(r"(\\$?)([A-Z]{1,3})(\\$?)(\\d+)")', 'range_parts = re.compile(r"(\\$?)([A-Z]{1,3})(\\$?)(\\d{1,7})")'),
